@@ -16,7 +16,7 @@ TraceInit == /\ tid \in 1..Len(Traces) /\ l = 1
              /\ cfg = AllOnes /\ cache = Fresh(cfg)
              /\ hist = <<[op |-> "init", observed |-> FALSE]>>
 TSet == Step /\ Ev.op = "set" /\ Ev.p \in Params /\ Ev.v \in Values(Ev.p)
-        /\ Set(Ev.p, Ev.v)
+        /\ Ev.via \in Vias(Ev.p) /\ Set(Ev.p, Ev.v, Ev.via)
         /\ (IsNoOp(Ev.p, Ev.v) \/ Required(Ev.p, cfg') \subseteq Rng(Ev.ran))
 TObserve == Step /\ Ev.op = "observe" /\ Observe(Ev.k)
 TraceNext == TSet \/ TObserve
